@@ -24,8 +24,10 @@ output queue `q_out`.
   exceptions / rejected elements, and hands `[x]` (`batch_size = 1`) or `x` (`batch_size = 0`) on.
 * `stream()`: without a thread pool the batch is passed to `call` at once and the next batch is
   assembled only after the outputs were written; with `num_stream_threads > 0` (`pool`) batches
-  go through `Parmapper` (order preserving, C01): several calls may be in flight, results are
-  written in release order (`callEnter`, `callRet`, `emit`).  A failing call delivers its
+  go through `Parmapper` (order preserving, C01): several calls may be in flight and may enter /
+  return in any order (`callEnter i j`, `callRet i j ok`; `j` = position in the worker's list of
+  released batches; the pool's concurrency limit is not modelled — the model allows more), results
+  are written in release order (`emit`).  A failing call delivers its
   exception to every member of its batch (`emit` with `ok = false`).
 
 Time is an integer clock advanced by `tick`.  A thread that can run does run before the clock
@@ -74,18 +76,17 @@ inductive GPh where
   | idle | coll (batch : List Req) (t0 : Nat) | ready (batch : List Req) (t0 : Nat) | fin
   deriving Repr, DecidableEq
 
-/-- a batch handed to `stream()` that has not entered `call` yet -/
-structure QEnt where
+/-- state of a batch that was handed to `stream()` -/
+inductive PSt where
+  | queued | running (cid : Nat) | done (cid : Nat) (ok : Bool)
+  deriving Repr, DecidableEq
+
+/-- a batch handed to `stream()` whose outputs have not been written yet (release order) -/
+structure PEnt where
   batch : List Req
   t0 : Nat
   trel : Nat
-  deriving Repr, DecidableEq
-
-/-- a batch inside `call` (`res = none`) or whose call has returned (`some ok`) -/
-structure REnt where
-  batch : List Req
-  cid : Nat
-  res : Option Bool
+  st : PSt
   deriving Repr, DecidableEq
 
 structure W where
@@ -93,8 +94,7 @@ structure W where
   buf : List Item := []
   flag : Bool := false         -- `_batch_get_called`
   gph : GPh := .idle
-  pq : List QEnt := []
-  pr : List REnt := []
+  pd : List PEnt := []
   deriving Repr, DecidableEq
 
 /-- one invocation of `Worker.call` -/
@@ -134,7 +134,7 @@ inductive Act where
   | cLock (i : Nat) | cGet (i : Nat) | cPut (i : Nat) | cMore (i : Nat) | cNoMore (i : Nat) | cDecide (i : Nat)
   | gFirst (i : Nat) | gNext (i : Nat) | gTimeout (i : Nat) | gRelease (i : Nat)
   | sGet (i : Nat)
-  | callEnter (i : Nat) | callRet (i : Nat) (cid : Nat) (ok : Bool) | emit (i : Nat)
+  | callEnter (i : Nat) (j : Nat) | callRet (i : Nat) (j : Nat) (ok : Bool) | emit (i : Nat)
   deriving Repr, DecidableEq
 
 def init : State := {}
@@ -151,17 +151,14 @@ def tickOk (c : Cfg) (clock : Nat) (w : W) : Bool :=
   (match w.gph with
    | .ready _ _ => false
    | .coll _ t0 => decide (clock < t0 + c.wait)
-   | _ => true) && (c.pool || w.pq.isEmpty)
+   | _ => true) && (c.pool || w.pd.all (fun e => e.st != .queued))
 
-def outsOf (e : REnt) (ok : Bool) : List Out :=
-  e.batch.map (fun r => .res r.uid (if ok then .val r.uid else .callErr e.cid))
-
-def setRes (cid : Nat) (ok : Bool) (e : REnt) : REnt :=
-  if e.cid = cid ∧ e.res = none then { e with res := some ok } else e
+def outsOf (batch : List Req) (cid : Nat) (ok : Bool) : List Out :=
+  batch.map (fun r => .res r.uid (if ok then .val r.uid else .callErr cid))
 
 /-- the consumer may start assembling the next batch: always with a pool, otherwise only after
     the outputs of the previous batch have been written -/
-def mayPull (c : Cfg) (w : W) : Bool := c.pool || (w.pq.isEmpty && w.pr.isEmpty)
+def mayPull (c : Cfg) (w : W) : Bool := c.pool || w.pd.isEmpty
 
 def step (c : Cfg) (s : State) : Act → Option State
   | .arrive kd =>
@@ -255,7 +252,7 @@ def step (c : Cfg) (s : State) : Act → Option State
     if i < c.k then
       match w.gph with
       | .ready batch t0 =>
-        some (setW s i { w with gph := .idle, flag := true, pq := w.pq ++ [⟨batch, t0, s.clock⟩] })
+        some (setW s i { w with gph := .idle, flag := true, pd := w.pd ++ [⟨batch, t0, s.clock, .queued⟩] })
       | _ => none
     else none
   | .sGet i =>
@@ -266,32 +263,39 @@ def step (c : Cfg) (s : State) : Act → Option State
         some { setW s i { w with gph := .fin } with qin := rest ++ [.stop], out := s.out ++ [.sentinel i] }
       | .req r :: rest =>
         if r.kind = .good then
-          some { setW s i { w with pq := w.pq ++ [⟨[r], s.clock, s.clock⟩] } with qin := rest }
+          some { setW s i { w with pd := w.pd ++ [⟨[r], s.clock, s.clock, .queued⟩] } with qin := rest }
         else some { s with qin := rest, out := s.out ++ [.res r.uid (shortRes r.kind)] }
       | [] => none
     else none
-  | .callEnter i =>
+  | .callEnter i j =>
     let w := s.ws i
     if i < c.k then
-      match w.pq with
-      | e :: rest =>
-        some { setW s i { w with pq := rest, pr := w.pr ++ [⟨e.batch, s.calls.length, none⟩] } with
-               calls := s.calls ++ [⟨i, e.batch, decide (0 < c.b), e.t0, e.trel, s.clock⟩] }
-      | [] => none
+      match w.pd[j]? with
+      | some e =>
+        if e.st = .queued then
+          some { setW s i { w with pd := w.pd.set j { e with st := .running s.calls.length } } with
+                 calls := s.calls ++ [⟨i, e.batch, decide (0 < c.b), e.t0, e.trel, s.clock⟩] }
+        else none
+      | none => none
     else none
-  | .callRet i cid ok =>
+  | .callRet i j ok =>
     let w := s.ws i
-    if i < c.k ∧ w.pr.any (fun e => e.cid = cid ∧ e.res = none) = true then
-      some (setW s i { w with pr := w.pr.map (setRes cid ok) })
+    if i < c.k then
+      match w.pd[j]? with
+      | some e =>
+        match e.st with
+        | .running cid => some (setW s i { w with pd := w.pd.set j { e with st := .done cid ok } })
+        | _ => none
+      | none => none
     else none
   | .emit i =>
     let w := s.ws i
     if i < c.k then
-      match w.pr with
+      match w.pd with
       | e :: rest =>
-        match e.res with
-        | some ok => some { setW s i { w with pr := rest } with out := s.out ++ outsOf e ok }
-        | none => none
+        match e.st with
+        | .done cid ok => some { setW s i { w with pd := rest } with out := s.out ++ outsOf e.batch cid ok }
+        | _ => none
       | [] => none
     else none
 
